@@ -2012,6 +2012,27 @@ fn flagged_unary_tests(e: &[(String, i128)], m: &[(String, i128)], x: i128) -> V
   ]
 }
 
+/// `-0` standing alone as a number (not followed by a digit or a decimal point, not preceded by one) written `0`
+fn unsigned_zeros(text: &str) -> String {
+  let cs: Vec<char> = text.chars().collect();
+  let mut out = String::new();
+  let mut i = 0;
+  while i < cs.len() {
+    if cs[i] == '-' && i + 1 < cs.len() && cs[i + 1] == '0' {
+      let before_ok = i == 0 || !(cs[i - 1].is_ascii_digit() || cs[i - 1] == '.');
+      let after_ok = i + 2 >= cs.len() || !(cs[i + 2].is_ascii_digit() || cs[i + 2] == '.');
+      if before_ok && after_ok {
+        out.push('0');
+        i += 2;
+        continue;
+      }
+    }
+    out.push(cs[i]);
+    i += 1;
+  }
+  out
+}
+
 fn flagged_family(rep: &mut Report, model: &mut Model, rng: &mut Rng, thorough: bool) {
   use dmntk_feel::AstNode;
   let n_scopes = if thorough { 6000 } else { 120 };
@@ -2116,7 +2137,9 @@ fn flagged_family(rep: &mut Report, model: &mut Model, rng: &mut Rng, thorough: 
         rep.hit("flagged:scope with competing names");
       }
       let got = eval_text(&scope_of(&bound), &text);
-      if got != want {
+      // the expectation is computed in exact integer arithmetic, which has one zero; a product of a negative number
+      // and zero is the decimal zero with a minus sign (`-0`), the same number (C02 / C07 speak about its sign and text)
+      if unsigned_zeros(&got) != want {
         rep.disagree(Kind::ImplVsSpec, "flagged", &format!("{}: {}", SIG_FLAGGED, class), &format!("bound={} expression={:?}", bound_text, text), &got, &want);
       }
       if si % 4 == 0 {
